@@ -178,6 +178,7 @@ func vfRunConnScenario(cfg vfConnScenarioCfg) (events []map[string]interface{}, 
 		return nil, "connect: " + err.Error()
 	}
 	sc.Bind(conn)
+	sc.Bind(conn.w)
 	sc.OnConn = func(point string, c *Conn, call *callReq, a, b int, err error) {
 		if c != conn {
 			return
